@@ -200,5 +200,54 @@ func SolveAll(obls []*Obl, timeoutS int, par int) map[string]SolveResult {
 		}()
 	}
 	wg.Wait()
+	// consistency probe for cvc5 answers: cvc5 1.0.3 has answered "unsat" on a satisfiable set of assumptions
+	// (wip/cvc5_wrong_unsat_min.smt2.txt). For every obligation it discharged, the assumptions alone (the script
+	// without its final goal) are given back to cvc5: if it calls those unsatisfiable too, the discharge is
+	// withdrawn (the obligation counts as undecided). Bases are shared by the obligations of a function, so this
+	// costs one extra query per function.
+	baseRes := map[uint64]string{}
+	var bmu sync.Mutex
+	sem3 := make(chan struct{}, 4)
+	for _, o := range obls {
+		r := out[o.Name]
+		if o.Expect == "sat" || r.Status != "unsat" || !strings.HasPrefix(r.Solver, "cvc5") {
+			continue
+		}
+		i := strings.LastIndex(o.Script, "(assert ")
+		if i < 0 {
+			continue
+		}
+		base := o.Script[:i] + "(check-sat)\n"
+		h := hashStr(base)
+		o := o
+		wg.Add(1)
+		sem3 <- struct{}{}
+		go func() {
+			defer wg.Done()
+			defer func() { <-sem3 }()
+			bmu.Lock()
+			ans, seen := baseRes[h]
+			bmu.Unlock()
+			if !seen {
+				file := filepath.Join(workDir(), fmt.Sprintf("base%x.smt2", h))
+				os.WriteFile(file, []byte(base), 0o644)
+				ctx, cancel := context.WithTimeout(context.Background(), 7*time.Second)
+				ans, _ = runSolver(ctx, solvers[1], file, 5)
+				cancel()
+				bmu.Lock()
+				baseRes[h] = ans
+				bmu.Unlock()
+			}
+			if ans == "unsat" {
+				mu.Lock()
+				rr := out[o.Name]
+				rr.Status = "unknown"
+				rr.Detail = "withdrawn: cvc5 also reports the assumptions without the goal unsatisfiable (inconsistent assumptions or a solver defect)"
+				out[o.Name] = rr
+				mu.Unlock()
+			}
+		}()
+	}
+	wg.Wait()
 	return out
 }
